@@ -39,7 +39,8 @@ class TLCResult:
 
 _GEN_RE = re.compile(r"(\d+) states generated, (\d+) distinct states found")
 _DEPTH_RE = re.compile(r"depth of the complete state graph search is (\d+)")
-_INV_RE = re.compile(r"Invariant (\S+) is violated|Action property (\S+) is violated|Temporal properties were violated")
+_INV_RE = re.compile(r"Invariant (\S+) is violated|Action property (\S+) is violated|Temporal properties were violated"
+                     r"|Temporal property (\S+) was violated")
 _COV_RE = re.compile(r"^<(\w+) line (\d+), col (\d+) to line (\d+), col (\d+) of module (\w+)>: (\d+):(\d+)")
 
 
@@ -120,7 +121,7 @@ def run_tlc(
                 res.coverage[f"{m.group(6)}!{m.group(1)}@{m.group(2)}"] = (int(m.group(7)), int(m.group(8)))
     m = _INV_RE.search(out)
     if m:
-        res.invariant_violated = m.group(1) or m.group(2) or "temporal"
+        res.invariant_violated = m.group(1) or m.group(2) or (m.group(3) if m.lastindex and m.lastindex >= 3 else None) or "temporal"
     finished = "Model checking completed. No error has been found." in out or (
         simulate is not None and "Error" not in out and rc == 0
     )
